@@ -824,6 +824,71 @@ func ruleGuardedBy(r *Run) {
 	for _, nm := range []string{"RegularGrid", "Participant", "SignedLatency"} {
 		sharedOwners[nm] = true
 	}
+	// … and so is every repository struct that a shared struct holds by value (an id generator that lost its
+	// own lock is still shared by everybody who shares its owner)
+	// (a type that also travels by value — a parameter, a result, a local — is a plain value, not shared state)
+	valueUse := map[*types.TypeName]bool{}
+	for _, fn := range r.P.All {
+		for _, obj := range fn.Info().Defs {
+			if v, ok := obj.(*types.Var); ok && !v.IsField() {
+				if nt, ok := v.Type().(*types.Named); ok {
+					valueUse[nt.Obj()] = true
+				}
+			}
+		}
+		if fn.Obj != nil {
+			sig := fn.Obj.Type().(*types.Signature)
+			for _, tup := range []*types.Tuple{sig.Params(), sig.Results()} {
+				for i := 0; i < tup.Len(); i++ {
+					if nt, ok := tup.At(i).Type().(*types.Named); ok {
+						valueUse[nt.Obj()] = true
+					}
+				}
+			}
+			if rv := sig.Recv(); rv != nil {
+				if nt, ok := rv.Type().(*types.Named); ok {
+					valueUse[nt.Obj()] = true
+				}
+			}
+		}
+	}
+	for changed := true; changed; {
+		changed = false
+		for _, pk := range r.P.Pkgs {
+			sc := pk.Types.Scope()
+			for _, nm := range sc.Names() {
+				tn, ok := sc.Lookup(nm).(*types.TypeName)
+				if !ok {
+					continue
+				}
+				nt, ok := tn.Type().(*types.Named)
+				if !ok || !sharedOwners[r.P.OwnerName(nt)] {
+					continue
+				}
+				st, ok := nt.Underlying().(*types.Struct)
+				if !ok {
+					continue
+				}
+				for i := 0; i < st.NumFields(); i++ {
+					ft, ok := st.Field(i).Type().(*types.Named)
+					if !ok || ft.Obj().Pkg() == nil || !isRepoPkg(ft.Obj().Pkg()) {
+						continue
+					}
+					if _, isStruct := ft.Underlying().(*types.Struct); !isStruct {
+						continue
+					}
+					on := r.P.OwnerName(ft)
+					if valueUse[ft.Obj()] {
+						continue
+					}
+					if _, pc := perConnection[on]; !pc && !sharedOwners[on] {
+						sharedOwners[on] = true
+						changed = true
+					}
+				}
+			}
+		}
+	}
 	guarded := 0
 	for _, k := range keys {
 		name := k.owner + "." + r.P.FieldName(k.field)
